@@ -28,6 +28,7 @@ import (
 	"github.com/projecteru2/core/store"
 	"github.com/projecteru2/core/store/etcdv3"
 	"github.com/projecteru2/core/store/etcdv3/embedded"
+	"github.com/projecteru2/core/store/etcdv3/meta"
 	"github.com/projecteru2/core/types"
 )
 
@@ -41,9 +42,12 @@ type step struct {
 	Reg   string `json:"reg,omitempty"`   // global: register this address
 	Dereg string `json:"dereg,omitempty"` // global: deregister this address
 	Txn   []txop `json:"txn,omitempty"`   // global: one transaction writing several /services/ keys, in this order
-	Op    string `json:"op,omitempty"`    // sub | cancel | unsub | closewatch | ""
-	Sid   int    `json:"sid,omitempty"`
-	Mode  string `json:"mode,omitempty"` // reader | slow
+	// global, first step only: registrations committed by the start hook while the instances' streams were
+	// starting — one right after each stream's snapshot Get returned, one right after each Watch call returned
+	Race []string `json:"race,omitempty"`
+	Op   string   `json:"op,omitempty"` // sub | cancel | unsub | closewatch | ""
+	Sid  int      `json:"sid,omitempty"`
+	Mode string   `json:"mode,omitempty"` // reader | slow
 }
 
 type obs struct {
@@ -91,6 +95,56 @@ func (s *subscriber) read() {
 			return
 		}
 	}
+}
+
+// hookKV is the store's real etcd KV; when armed it commits a registration immediately after a Get on
+// /services/ has returned and another one immediately after a Watch on /services/ has returned, i.e.
+// at the two interleaving points of ServiceStatusStream's start (a core coming up while another core's
+// discovery is starting).
+type hookKV struct {
+	meta.KV
+	mu     sync.Mutex
+	armed  bool
+	nGet   int
+	nWatch int
+	commit func(addr string)
+}
+
+func raceGetAddr(i int) string   { return fmt.Sprintf("10.0.2.%d:6001", i) }
+func raceWatchAddr(i int) string { return fmt.Sprintf("10.0.3.%d:6002", i) }
+
+func (h *hookKV) Get(ctx context.Context, key string, opts ...clientv3.OpOption) (*clientv3.GetResponse, error) {
+	resp, err := h.KV.Get(ctx, key, opts...)
+	if key == "/services/" {
+		h.mu.Lock()
+		fire := h.armed
+		if fire {
+			h.nGet++
+		}
+		n := h.nGet
+		h.mu.Unlock()
+		if fire {
+			h.commit(raceGetAddr(n))
+		}
+	}
+	return resp, err
+}
+
+func (h *hookKV) Watch(ctx context.Context, key string, opts ...clientv3.OpOption) clientv3.WatchChan {
+	ch := h.KV.Watch(ctx, key, opts...)
+	if key == "/services/" {
+		h.mu.Lock()
+		fire := h.armed
+		if fire {
+			h.nWatch++
+		}
+		n := h.nWatch
+		h.mu.Unlock()
+		if fire {
+			h.commit(raceWatchAddr(n))
+		}
+	}
+	return ch
 }
 
 // relayStore is the real store, except that the channel of ServiceStatusStream is relayed through
@@ -211,16 +265,29 @@ func (in *instance) observe() obs {
 }
 
 // runBatch executes the cases of one batch (same length, same global reg/dereg timeline) concurrently.
-func runBatch(t *testing.T, m *etcdv3.Mercury, cli *clientv3.Client, ks []*kase) {
+func runBatch(t *testing.T, m *etcdv3.Mercury, cli *clientv3.Client, hook *hookKV, ks []*kase) {
 	ctx, cancel := context.WithCancel(context.Background())
 	defer cancel()
 	ins := make([]*instance, len(ks))
+	txnKeys := map[string]bool{}
+	if len(ks[0].Steps[0].Race) > 0 {
+		hook.mu.Lock()
+		hook.armed, hook.nGet, hook.nWatch = true, 0, 0
+		hook.commit = func(addr string) {
+			if _, err := cli.Put(context.Background(), "/services/"+addr, ""); err != nil {
+				t.Logf("race put: %v", err)
+			}
+		}
+		hook.mu.Unlock()
+		for _, a := range ks[0].Steps[0].Race {
+			txnKeys[a] = true
+		}
+	}
 	for i := range ks {
 		rs := &relayStore{Store: m, kill: make(chan struct{})}
 		ins[i] = &instance{h: helium.New(ctx, types.GRPCConfig{ServiceDiscoveryPushInterval: time.Second}, rs), relay: rs, subs: map[int]*subscriber{}}
 	}
 	unreg := map[string]func(){}
-	txnKeys := map[string]bool{}
 	defer func() {
 		for _, f := range unreg {
 			f()
@@ -234,6 +301,18 @@ func runBatch(t *testing.T, m *etcdv3.Mercury, cli *clientv3.Client, ks []*kase)
 	nsteps := len(ks[0].Steps)
 	wait := time.Duration(ks[0].WaitMs) * time.Millisecond
 	time.Sleep(300 * time.Millisecond) // let every stream deliver its initial snapshot
+	hook.mu.Lock()
+	hook.armed = false
+	hook.mu.Unlock()
+	if race := ks[0].Steps[0].Race; len(race) > 0 {
+		// a replay runs one instance per batch: commit the registrations its hooks did not produce, so
+		// that the registered set is the recorded one
+		for _, a := range race {
+			if resp, err := cli.Get(ctx, "/services/"+a); err == nil && resp.Count == 0 {
+				cli.Put(ctx, "/services/"+a, "") //nolint
+			}
+		}
+	}
 	for si := 0; si < nsteps; si++ {
 		g := ks[0].Steps[si]
 		if g.Reg != "" {
@@ -487,6 +566,23 @@ func corpusTxnBatch() []*kase {
 	}
 }
 
+// fixed batch: registrations are committed at the two interleaving points of every stream's start
+// (right after its snapshot Get returned, right after its Watch call returned); every subscriber must
+// have all of them within one push interval, and keep them.
+func corpusStartRaceBatch() []*kase {
+	const k = 3
+	race := []string{}
+	for i := 1; i <= k; i++ {
+		race = append(race, raceGetAddr(i), raceWatchAddr(i))
+	}
+	ks := []*kase{}
+	for i := 0; i < k; i++ {
+		ks = append(ks, &kase{ID: fmt.Sprintf("c-start-race-%d", i), Steps: []step{
+			{Race: race, Op: "sub", Sid: 1, Mode: "reader"}, {}, {Txn: []txop{{Put: txAddrs[0]}, {Put: txAddrs[1]}}}}})
+	}
+	return ks
+}
+
 func TestGen(t *testing.T) {
 	cfg := types.Config{}
 	cfg.LockTimeout = 10 * time.Second
@@ -503,11 +599,13 @@ func TestGen(t *testing.T) {
 	defer out.Close()
 	waitMs := hx.EnvInt("VERIF_HELIUM_WAIT_MS", 1600)
 	cli := embedded.NewCluster(t, cfg.Etcd.Prefix).RandClient() // the same (namespaced) client the store uses
+	hook := &hookKV{KV: m.KV}
+	m.KV = hook
 	emit := func(ks []*kase) {
 		for _, k := range ks {
 			k.WaitMs = waitMs
 		}
-		runBatch(t, m, cli, ks)
+		runBatch(t, m, cli, hook, ks)
 		for _, k := range ks {
 			out.Emit(k)
 		}
@@ -535,6 +633,7 @@ func TestGen(t *testing.T) {
 	emit(corpusBatch())
 	emit(corpusTxnBatch())
 	emit(corpusEmptyBatch())
+	emit(corpusStartRaceBatch())
 	batch := hx.EnvInt("VERIF_HELIUM_BATCH", 24)
 	for bi := 0; out.N < n; bi++ {
 		nsteps := r.Range(4, 6)
